@@ -122,7 +122,42 @@ def case_table(run, i):
     run.end_case(fp=rt.fingerprint(direct, 12), nontrivial=n > 1, sample={"chromosome": cols["chromosome"][:5], "cn": cols["cn"][:5], "ci_lo": cols["ci_lo"][:5]} if i % 101 == 0 else None)
 
 
-WORKLOADS = {"table": (_n, case_table)}
+def _n_cli(tier):
+    return 40 if tier == "quick" else 300
+
+
+def case_cli(run, i):
+    """`cnvkit.py call --filter ...` on a written .cns: the filter list reaches do_call in the order given (also with -m none on an
+    already-called table), and the file written is the table returned; the filters themselves are judged by their own monitors."""
+    import os
+    import shutil
+    from skgenome import tabio
+    from ..monitors import cli_plumb
+    rng = run.rng("cli", i)
+    cols = _table(rng)
+    flt = list(FILTER_LISTS[int(rng.integers(0, len(FILTER_LISTS)))])
+    method = ["threshold", "clonal", "none"][i % 3]
+    keep = ["chromosome", "start", "end", "gene", "log2", "probes", "weight", "ci_lo", "ci_hi", "sem", "depth"]
+    if method == "none":
+        keep.append("cn")          # -m none on a table that already carries calls: cn-based filters must still run
+    use = {k: cols[k] for k in keep}
+    d = os.path.join(run.workdir, f"cli14_{run.shard}_{i}")
+    os.makedirs(d, exist_ok=True)
+    inf, outf = os.path.join(d, "S.cns"), os.path.join(d, "S.call.cns")
+    with run.monitor_scope():
+        tabio.write(make_cna(use), inf)
+    argv = ["call", inf, "-m", method, "-o", outf]
+    for f in flt:
+        argv += ["--filter", f]
+    expect = dict(method=method, ploidy=2, purity=None, male_ref=False, female=None, par=None, filters=flt, thresholds=None, center_at=None)
+    run.begin_case("cli", i, cls=f"cli:call:{method}:" + "+".join(flt))
+    cli_plumb.check_call_cli(run, rt, inf, outf, argv, expect, [float("%.6g" % v) for v in cols["log2"]])
+    shutil.rmtree(d, ignore_errors=True)
+    run.end_case(fp=rt.fingerprint([cols["cn"][:20], flt, method], 12), nontrivial=True)
+
+
+WORKLOADS = {"table": (_n, case_table), "cli": (_n_cli, case_cli)}
 _Q = {f"segfilters.{f}|held": 300 for f in ("cn", "ci", "sem", "ampdel")}
 _Q["call.do_call[filter-order]|held"] = 300
+_Q["cli.call[plumbing]|held"] = 30
 QUOTAS = {"quick": _Q, "thorough": _Q}
